@@ -58,6 +58,7 @@ fn gen_msgs(d: &Desc, rng: &mut Rng, count: usize, budget: usize) -> (Vec<(Value
 fn base_case(msgs: Vec<(Value, u64)>, max_msg_len: usize, stream_len: usize) -> IoCase {
     IoCase {
         msgs,
+        pre: vec![],
         max_msg_len,
         wchunks: vec![],
         rchunks: vec![],
@@ -127,7 +128,26 @@ fn build(ctx: &Ctx, vt: &VT, idx: u64, rng: &mut Rng) -> Built {
     c.wake_driven = rng.chance(1, 2);
     c.flush_pending = rng.below(3) as usize;
     c.max_polls = 8 * (stream_len + 8 * (count + 1) + 2 * plen + c.schedule.len()) + 256;
-    let _ = idx;
+    // some messages are first initialised with another value and then replaced through the send guard (own random
+    // stream: the rest of the case does not depend on it)
+    let mut prng = Rng::new(mix(idx) ^ 0x5eed_6a4d);
+    if !d.is_sized() && prng.chance(1, 3) {
+        c.pre = c
+            .msgs
+            .iter()
+            .map(|_| {
+                if prng.chance(1, 2) {
+                    let mut pv = gen_value(d, &mut prng, budget);
+                    if extent_of(d, &pv) > largest {
+                        pv = crate::inputs::smallest_value(d);
+                    }
+                    Some((pv, prng.next()))
+                } else {
+                    None
+                }
+            })
+            .collect();
+    }
     Built { case: c, images, desc: String::new() }
 }
 
@@ -609,6 +629,10 @@ pub fn run(ctx: &Ctx, rep: &mut Report) {
             }
             if case.buf_cap.is_some() {
                 rep.count("non-default-buffer-capacity");
+            }
+            let edited = case.pre.iter().filter(|p| p.is_some()).count();
+            if edited > 0 && mode != "threaded" {
+                rep.add("messages-replaced-through-send-guard", edited as u64);
             }
             if case.monitored && mode != "threaded" {
                 if t.mon.misaligned_windows > 0 {
